@@ -121,6 +121,28 @@ pub(crate) fn host_connection_config() -> HostConnectionConfig {
     }
 }
 
+/// The `ConnectionConfig` used by the crate's own tests (`Default` is `cfg(test)` only).
+pub(crate) fn connection_config() -> ConnectionConfig {
+    ConnectionConfig {
+        local_ip_address: None,
+        shard_aware_local_port_range: ShardAwarePortRange::EPHEMERAL_PORT_RANGE,
+        compression: None,
+        tcp_socket_options: TcpSocketOptions::default(),
+        timestamp_generator: None,
+        event_sender: None,
+        tls_provider: None,
+        connect_timeout: std::time::Duration::from_secs(5),
+        default_consistency: Default::default(),
+        authenticator: None,
+        address_translator: None,
+        write_coalescing_delay: Some(WriteCoalescingDelay::SmallNondeterministic),
+        keepalive_interval: None,
+        keepalive_timeout: None,
+        tablet_sender: None,
+        identity: SelfIdentity::default(),
+    }
+}
+
 fn broken_kind(err: &BrokenConnectionError) -> String {
     match err.downcast_ref::<BrokenConnectionErrorKind>() {
         Some(kind) => match kind {
@@ -207,7 +229,11 @@ impl RawConnection {
 
     /// `RouterHandle::send_request` with a raw body; the error is mapped to a label.
     pub async fn send_raw(&self, body: Vec<u8>) -> Result<RawResponse, String> {
-        match self.handle.send_request(&RawRequest(body), None, false).await {
+        match self
+            .handle
+            .send_request(&RawRequest(body), None, false)
+            .await
+        {
             Ok(resp) => Ok(RawResponse {
                 stream: resp.params.stream,
                 flags: resp.params.flags,
@@ -223,4 +249,13 @@ impl RawConnection {
             }),
         }
     }
+}
+
+/// C06/C13: a real `Connection` object to a (mock) listener that is never written to;
+/// synthetic attempt targets hand it to `run_request_once`, which ignores it.
+pub(crate) async fn dummy_connection(addr: SocketAddr) -> Result<Arc<Connection>, String> {
+    Connection::new(addr, None, host_connection_config())
+        .await
+        .map(|(conn, _error_receiver)| Arc::new(conn))
+        .map_err(|e| e.to_string())
 }
